@@ -34,6 +34,20 @@ def hdrStr (h : Header) : String :=
   let f := fun (x : String) => textOut x.toList
   s!"{f h.alg}|{f h.enc}|{f h.zip}|{f h.kid}|{f h.nonce}"
 
+/-- Toy instances for the recipient loop (`jose.jwe.multi`): an AEAD that opens only under `multiCek`, and a key
+management whose encrypted keys say what the caller's key makes of them (0: error, 1: a wrong CEK, 2: the CEK). -/
+def multiCek : Bytes := [0xCE, 0x4B]
+def multiAead : AeadPrim where
+  sealF _ _ p _ := (p, [])
+  openF k _ ct _ _ := if k = multiCek then some ct else none
+def multiKm : KeyMgmt Unit Unit where
+  pub := id
+  wrap _ c := 2 :: c
+  unwrap _ e := match e with
+    | 1 :: _ => some [0xBA, 0x0D]
+    | 2 :: c => some c
+    | _ => none
+
 def handle (op : String) (args : List String) : Option String :=
   match op, args with
   | "jose.b64", [h] => do let b ← parseBytes h; pure (textOut (b64 b))
@@ -87,6 +101,16 @@ def handle (op : String) (args : List String) : Option String :=
   | "jose.decres0", [o] => do
     let o ← if o == "none" then some none else (parseBytes o).map some
     pure ((decryptResultUnrepaired o).str toHex)
+  | "jose.jwe.multi", [v, z] => do
+    -- the recipient loop on a multi-recipient object; per entry, what the caller's key makes of it:
+    -- n = key decryption fails, w = it "succeeds" with a CEK that is not the CEK (RSA1_5 on a foreign entry),
+    -- r = the caller's own entry. z = 1: the payload was compressed (toy deflate: a marker byte).
+    let pt : Bytes := [0x70, 0x74]
+    let zp : Option Zip := if z == "1" then some { deflate := fun x => 0x5a :: x, inflate := fun x => some x.tail } else none
+    let eks ← v.toList.mapM (fun ch => match ch with
+      | 'n' => some [0] | 'w' => some [1] | 'r' => some (2 :: multiCek) | _ => none)
+    let o := jweEncryptMulti multiAead multiKm zp [] multiCek [] [] pt none
+    pure ((jweDecryptMulti multiAead multiKm zp () { o with eks := eks }).str toHex)
   | _, _ => none
 
 end Oracle.Jose
